@@ -484,10 +484,46 @@ def describe_scene(pal, c):
     }
 
 
+def _dense_ball_family(seed):
+    """More than 25 target points inside the max-thickness ball of a source, only two of them inside the cone: the
+    admissible ones must be found wherever they stand in the point array (every insertion position is enumerated)."""
+    rs = np.random.RandomState(2020 + seed)
+    n_off = 40
+    # off-cone targets: a ring 3.2..4.6 voxels away, 35..80 degrees off the normal (inside the ball of radius 5, outside every cone <= 30)
+    ring = []
+    for i in range(n_off):
+        az = 2 * np.pi * (i + 0.37) / n_off
+        pol = np.radians(35.0 + 45.0 * ((i * 7) % n_off) / n_off)
+        r = 3.2 + 1.4 * ((i * 11) % n_off) / n_off
+        ring.append([r * np.sin(pol) * np.cos(az), r * np.sin(pol) * np.sin(az), r * np.cos(pol)])
+    ring = np.array(ring) + rs.uniform(-0.01, 0.01, (n_off, 3))
+    good = np.array([[0.11, -0.07, 3.05], [-0.21, 0.16, 3.9]])   # 2.4 and 3.9 degrees off the normal
+
+    def execute(case, obs):
+        pos, alpha = case
+        tg = np.vstack([ring[:pos], good[:1], ring[pos:pos + (n_off - pos) // 2], good[1:], ring[pos + (n_off - pos) // 2:]])
+        pts = np.vstack([[[0.0, 0.0, 0.0]], tg])
+        nrm = np.tile(np.array([0.0, 0.0, 1.0]), (len(pts), 1))
+        m1 = np.zeros(len(pts), dtype=bool)
+        m1[0] = True
+        m2 = ~m1
+        src, tgt = [0], list(range(1, len(pts)))
+        res = call_cpu(obs, pts, nrm, m1, m2, 1.0, 5.0, alpha, "1to2")
+        obs.nontrivial = True
+        judge(obs, res, pts, nrm, src, tgt, 5.0, alpha, 1.0, cls="more-than-25-points-in-the-ball")
+        obs.outcome = outcome_of(res, src) + (pos,)
+
+    from ..space import Product as _P
+    return Family("dense-ball", _P(list(range(0, n_off + 1)), [5.0, 15.0, 30.0]), execute,
+                  describe=lambda c: {"admissible_target_inserted_at": c[0], "max_angle": c[1], "targets_in_ball": n_off + 2},
+                  expect=("pair-within-cone", "no-admissible-pair-left-over"), min_outcomes=1)
+
+
 def families(tier, seed):
     pal, fams = make_families(tier, seed)
     from ..engine import with_array_layouts
     # points / normals handed over Fortran-ordered or as strided views: the pairing family at one cone angle, one unit setting
+    fams.append(_dense_ball_family(seed))
     fams.append(with_array_layouts(fams[0], select=lambda c: c[2] == 15.0 and tuple(c[3]) == (0, 0),
                                    expect=("pair-within-range", "pair-within-cone", "no-target-used-twice")))
     return fams
